@@ -799,7 +799,7 @@ def drv_query(tier, seed):
       g = _out(KP.parse(str(p)).query, root) if True else None
       chk(f'query.node-via-printed-path/{cls}', (expr, path), g[0] == 'ok' and g[1] is node, lambda: f'parse(str(p)).query -> {g}',
           lambda: w0 + 'pg.KeyPath.parse(str(p)).query(root)')
-      chk(f'exists.node/{cls}', (expr, path), _out(p.exists, root) == ('ok', True), 'exists -> not True', lambda: w0 + 'assert p.exists(root) is True')
+      oke = chk(f'exists.node/{cls}', (expr, path), _out(p.exists, root) == ('ok', True), 'exists -> not True', lambda: w0 + 'assert p.exists(root) is True')
       g = _out(p.get, root, _SENTINEL)
       okg = chk(f'get.node/{cls}', (expr, path), g[0] == 'ok' and g[1] is node, lambda: f'get -> {g}', lambda: w0 + 'assert p.get(root, "dflt") is not "dflt"')
       # whatever the default is (also one that equals the node): a node that is there is returned itself.
@@ -809,8 +809,9 @@ def drv_query(tier, seed):
           g = _out(p.get, root, dv) if dn != 'none' else _out(p.get, root)
           chk(f'get.node.default={dn}/{cls}', (expr, path), g[0] == 'ok' and g[1] is node, lambda: f'get(root, {dsrc}) -> {g}, want the node {node!r}',
               lambda: _pre(expr + dsrc) + f'root = {expr}\np = pg.KeyPath({lp!r})\nassert p.get(root, {dsrc}) is p.query(root)')
-      # the symbolic root offers the same lookups as methods.
-      if sym_root:
+      # the symbolic root offers the same lookups as methods (checked where the KeyPath methods
+      # are right: a defect of those is reported once).
+      if sym_root and oke and okg:
         g1, g2, g3, g4 = _out(root.sym_has, p), _out(root.sym_get, p), _out(root.sym_get, str(p), pg.MISSING_VALUE), _out(root.sym_has, str(p))
         chk(f'sym_has-sym_get.node/{cls}', (expr, path), g1 == ('ok', True) and g4 == ('ok', True) and g2[0] == 'ok' and g2[1] is node and g3[0] == 'ok' and g3[1] is node,
             lambda: f'sym_has -> {g1}, sym_has(str) -> {g4}, sym_get -> {g2}, sym_get(str, MISSING_VALUE) -> {g3}; want True / the node {node!r}',
@@ -1021,8 +1022,9 @@ def drv_traverse(tier, seed):
     lv = list(dict.fromkeys(v for _, v in mleaves if type(v) in (int, str)))
     # (pg.contains compares with ==: a value with leaves that are == to everything / refuse a truth value is out of its scope.)
     g = [_out(pg.contains, root, x) for x in lv] + [_out(pg.contains, root, 'no such leaf'), _out(pg.contains, root, -12345)] if flavour not in ('leaf-eq-always-true', 'leaf-eq-non-bool') else None
-    chk(f'pg.contains.finds-exactly-the-present-leaves/{flavour}', key, g is None or g == [('ok', True)] * len(lv) + [('ok', False)] * 2, lambda: f'{lv} + 2 absent -> {g}',
-        lambda: w0 + f'assert all(pg.contains(root, x) for x in {lv!r}) and not pg.contains(root, "no such leaf")')
+    if g is not None:
+      chk(f'pg.contains.finds-exactly-the-present-leaves/{flavour}', key, g == [('ok', True)] * len(lv) + [('ok', False)] * 2, lambda: f'{lv} + 2 absent -> {g}',
+          lambda: w0 + f'assert all(pg.contains(root, x) for x in {lv!r}) and not pg.contains(root, "no such leaf")')
     # --- a traversal started from inside a visitor does not disturb the outer one
     # (and is not disturbed by it).
     if 2 < len(mpre) <= 40:
@@ -1184,6 +1186,23 @@ def _flat_values(tier, seed):
       out.append(ctx.format(S=f'(s := {sh})', s='s'))
   out.extend(e for e, f in _shared_exprs(rng(seed, 'c10-flat-shared'), 60 if tier == 'quick' else 1000) if f == 'shared-plain')
   return list(dict.fromkeys(out))
+
+
+def _src(x):
+  """Source text of a plain nested value with unusual leaves."""
+  if isinstance(x, dict):
+    return '{' + ', '.join(f'{k!r}: {_src(v)}' for k, v in x.items()) + '}'
+  if isinstance(x, list):
+    return '[' + ', '.join(_src(v) for v in x) + ']'
+  if isinstance(x, tuple):
+    return '(' + ''.join(_src(v) + ', ' for v in x) + ')'
+  if x is pg.MISSING_VALUE:
+    return 'pg.MISSING_VALUE'
+  if isinstance(x, float) and x != x:
+    return "float('nan')"
+  if isinstance(x, type):
+    return x.__name__
+  return repr(x)
 
 
 def _flat_special():
@@ -1376,7 +1395,7 @@ def drv_flatten(tier, seed):
       return
     okk = all(_out(KP.parse(k).query, v) == ('ok', x) if type(x) in (list, dict) else _out(KP.parse(k).query, v)[1] is x for k, x in g[1].items())
     chk(f'flatten.key-looks-up-leaf/{cls}', expr, okk, 'a flattened key does not address its value',
-        lambda: w0 + 'assert all(pg.KeyPath.parse(k).query(v) is x for k, x in pg.utils.flatten(v, False).items() if x not in ([], {}))')
+        lambda: w0 + 'assert all(pg.KeyPath.parse(k).query(v) is x for k, x in pg.utils.flatten(v, False).items() if type(x) not in (list, dict))')
     # (in a path-keyed form pg.MISSING_VALUE is the documented request to delete the key: no inverse to expect for it.)
     if cls != 'leaf-missing-value':
       forms = [('flat', g[1])]
@@ -1388,7 +1407,7 @@ def drv_flatten(tier, seed):
         for flag in (True, False):
           c = _out(pg.utils.canonicalize, form, flag)
           chk(f'canonicalize-inverts-flatten/{cls}', (expr, nm, flag), c[0] == 'ok' and _deep_same(c[1], v), lambda: f'canonicalize({form!r}, {flag}) -> {c}, want {v!r}',
-              lambda: w0 + ('import math\n' if cls == 'leaf-nan' else '') + 'nan = float("nan")\n' * (cls == 'leaf-nan') + f'form = {form!r}\nassert repr(pg.utils.canonicalize(form, {flag})) == repr(v)')
+              lambda: w0 + f'form = {_src(form)}\nassert repr(pg.utils.canonicalize(form, {flag})) == repr(v)')
     chk(f'flatten.argument-unchanged/{cls}', expr, _deep_same(v, eval(expr, dict(fns))), 'flatten/canonicalize modified the input',  # pylint: disable=eval-used
         lambda: w0 + f'pg.utils.flatten(v, False); assert repr(v) == repr({expr})')
 
